@@ -137,6 +137,13 @@ register('C14', [
     'Registry::new from a Fleet (group construction by the user-supplied key function), deep_slice with a filter other than the production one (membership in a set of kept actors), RegistryContext::new (needs a GoalContext)',
     'the earlier Kani harnesses over Tour (kani/vrp-core/tour_proofs.rs) exceed memory and are not part of the check',
 ])
+register('C17', [
+    'density clustering only: create_clusters (DBSCAN) on 2-3 points with a FULLY symbolic neighbourhood relation (one Bool per ordered pair, not necessarily symmetric or reflexive) and min_points 1..3: clusters pairwise disjoint and duplicate-free, first point of a cluster is a core point, every member density-reachable from it, no core point unclustered',
+    'hash map / hash set of create_clusters as association lists keyed by point identity (hashing and iteration order not modelled); the neighbourhood function is the environment',
+], [
+    'Lin-Kernighan style re-sequencing (unbounded improvement loop over tours in hash containers) and k-medoids (up to 200 iterations of floating-point assignment / update steps over rayon folds): not encodable within reach',
+    'more than 3 points (4 points = 65536 neighbourhood relations; about half an hour)',
+])
 register('C05', [
     'mechanism claim: the cache-computing functions are total functions of the tour alone (history independence proved per output) and equal the reference recomputation',
 ], [
